@@ -209,7 +209,11 @@ class AstMap:
         """
         if not isinstance(std_node, CaitNode):
             raise TypeError
-        self.exp_table[ins_node.astNode.id] = std_node
+        ast_node = ins_node.astNode
+        # An attribute or argument name shaped like __expr__ (obj.__dict__, def f(__x__)) has
+        # no `id`; the matcher records such a name as `_id`
+        key = ast_node.id if hasattr(ast_node, 'id') else ast_node._id
+        self.exp_table[key] = std_node
 
     def add_node_pairing(self, ins_node, std_node):
         """
